@@ -3,6 +3,7 @@
 # applies a seeded change to /repo, runs the quick check, reverts.
 P=$1; ID=$2; shift 2
 cd /repo || exit 2
+if [ -n "$(git status --porcelain)" ]; then echo "REPO DIRTY - refusing (would lose changes)"; exit 4; fi
 if ! git apply --check "$P" 2>/dev/null; then
   if ! patch -p1 --dry-run -F3 -s < "$P" >/dev/null; then echo "PATCH DOES NOT APPLY"; exit 3; fi
   patch -p1 -F3 -s < "$P"
